@@ -18,7 +18,10 @@ MgCliOK(e) == LET m == MCases[e.i].m IN
               ~e.err /\ e.sent /\ e.wf /\ Len(e.doc) = 1 /\ MultigetShape(e.doc[1]) /\ MultigetDenotes(e.doc[1]) = m
 BadOK(e) == ~e.panic /\ In4xx(e.st) /\ e.queries = 0 /\ e.mut = 0
 Accept(e) == CASE e.k = "srv" -> SrvOK(e) [] e.k = "cli" -> CliOK(e) [] e.k = "mgsrv" -> MgSrvOK(e) [] e.k = "mgcli" -> MgCliOK(e)
-               [] e.k = "bad" -> BadOK(e) [] OTHER -> FALSE
+               [] e.k = "bad" -> BadOK(e)
+               \* a multiget without paths names the addressed collection itself, on every use of the same request value
+               [] e.k = "mgself" -> ~e.err /\ e.first = <<"first">> /\ e.second = <<"second">>
+               [] OTHER -> FALSE
 
 \* ---- signature: which parts of the request differ
 RECURSIVE CFIsnd(_), CFTr(_), CFTm(_), CFNames(_), CRNames(_), CRSel(_)
@@ -49,6 +52,7 @@ Sig(e) == CASE e.k = "srv" -> LET q == QCases[e.i].q IN
             [] e.k = "mgcli" -> LET m == MCases[e.i].m IN
                  "multiget client->wire" \o (IF e.err THEN " error" ELSE IF ~(Len(e.doc) = 1 /\ MultigetShape(e.doc[1])) THEN " wrong-shape"
                                              ELSE (IF MultigetDenotes(e.doc[1]).hrefs # m.hrefs THEN " hrefs" ELSE "") \o DiffC(MultigetDenotes(e.doc[1]).comp, m.comp))
+            [] e.k = "mgself" -> "multiget without paths, request value used twice: " \o (IF e.err THEN "error" ELSE IF e.first # <<"first">> THEN "first call names something else" ELSE "second call does not name the second collection")
             [] e.k = "bad" -> "invalid-document (" \o BadCases[e.i].kind \o ") st=" \o ToString(e.st) \o " queries=" \o ToString(e.queries)
             [] OTHER -> "unknown-event"
 
